@@ -242,6 +242,17 @@ func init() {
 				e.params["purge"] = 1
 			})
 		}
+		if !closedFirst && r.Intn(5) == 0 {
+			// the queue is closed while a batch is being submitted: its first items are accepted, the
+			// rest rejected; the batch still completes exactly when the accepted ones have
+			jn.goClient("closer", func() {
+				for k := r.Intn(8); k > 0; k-- {
+					vt.Yield()
+				}
+				e.closeQueue(q)
+				e.params["closedMid"] = 1
+			})
+		}
 		// the joiner also waits for the stream readers: a stream that is never closed shows up as a hang
 		jn.wait()
 		e.drain()
